@@ -34,7 +34,7 @@ Context (Hsort : Gen.Facts.error_sort_when_muted = true).
 Context (Hwf : Forall wf_pkt pkts).
 Context (Hn : N.of_nat (length pkts) < U32_MAX).
 Context (Hpay : pay_all pkts < U32_MAX).
-Context (Hlay : forall p, In p pkts -> layout_rp (hdr p) (p_payload p)).
+Context (Hlay : sc_skip (rc_scan c) = true \/ forall p, In p pkts -> layout_rp (hdr p) (p_payload p)).
 Context (Hknown : forall p r, pkts = p :: r -> known_sysid (r_system_id (hdr p)) = true).
 
 Let cdps := map (mk_cdp (rc_scan c)) (selected (rc_scan c) 0 pkts).
